@@ -20,6 +20,8 @@ def kind(f, refs):
         return kind(f[1], refs)
     if t == 'not':
         return 'bool' if kind(f[1], refs) == 'bool' else None
+    if t == 'win':
+        return 'int' if all(kind(p, refs) is not None for p in f[2]) else None
     if t == 'agg':
         k = kind(f[2], refs)
         if k is None:
@@ -44,7 +46,7 @@ def leaves(f):
     t = f[0]
     if t in ('col', 'elem'):
         return [f]
-    if t == 'lit':
+    if t in ('lit', 'win'):      # a window is opaque to the membership rule (Element.dissect does not enter its partition)
         return []
     if t in ('alias', 'not'):
         return leaves(f[1])
@@ -62,6 +64,36 @@ def aggregates(f):
     if t == 'bin':
         return aggregates(f[2]) or aggregates(f[3])
     return False
+
+
+def windows(f):
+    t = f[0]
+    if t == 'win':
+        return True
+    if t in ('alias', 'not'):
+        return windows(f[1])
+    if t == 'agg':
+        return windows(f[2])
+    if t == 'bin':
+        return windows(f[2]) or windows(f[3])
+    return False
+
+
+def has_window(s):
+    """Does the statement carry a window feature anywhere (such statements have no model counterpart)?"""
+    t = s[0]
+    if t == 'table':
+        return False
+    if t == 'ref':
+        return has_window(s[1])
+    if t == 'join':
+        return has_window(s[2]) or has_window(s[3]) or (s[4] is not None and windows(s[4]))
+    if t == 'set':
+        return has_window(s[2]) or has_window(s[3])
+    q = s[2]
+    feats = list(q.get('sel') or []) + list(q.get('grp') or []) + [f for f, _ in q.get('ord') or []]
+    feats += [x for x in (q.get('pre'), q.get('post')) if x is not None]
+    return has_window(s[1]) or any(windows(f) for f in feats)
 
 
 def strip(f):
@@ -112,7 +144,7 @@ def py_ok(s, refs):
         if cond is None:
             return False
         avail = [x for f in out_features(l) + out_features(r) for x in leaves(f)]
-        return kind(cond, refs) == 'bool' and not aggregates(cond) and all(e in avail for e in leaves(cond))
+        return kind(cond, refs) == 'bool' and not aggregates(cond) and not windows(cond) and all(e in avail for e in leaves(cond))
     if t == 'set':
         return py_ok(s[2], refs) and py_ok(s[3], refs) and _dict_schema(s[2], refs) == _dict_schema(s[3], refs)
     src, q = s[1], s[2]
@@ -124,15 +156,15 @@ def py_ok(s, refs):
     if not all(kind(f, refs) is not None and member(f) for f in sel):
         return False
     pre, post = q.get('pre'), q.get('post')
-    if pre is not None and not (kind(pre, refs) == 'bool' and member(pre) and not aggregates(pre)):
+    if pre is not None and not (kind(pre, refs) == 'bool' and member(pre) and not aggregates(pre) and not windows(pre)):
         return False
-    if not all(kind(g, refs) is not None and not aggregates(g) and member(g) for g in grp):
+    if not all(kind(g, refs) is not None and not aggregates(g) and not windows(g) and member(g) for g in grp):
         return False
     if grp:
         keys = [strip(g) for g in grp]
         if not all(strip(f) in keys or aggregates(f) for f in (sel or out_features(src))):
             return False
-    if post is not None and not (kind(post, refs) == 'bool' and member(post)):
+    if post is not None and not (kind(post, refs) == 'bool' and member(post) and not windows(post)):
         return False
     return all(kind(f, refs) is not None and member(f) for f, _ in q.get('ord', []))
 
@@ -153,7 +185,7 @@ class C07(core.Prop):
         'statements the schema names and kinds. Non-trivial = a mutant, or a conforming statement with grouping or a join.'
     )
     ASSUMPTIONS = [
-        'window functions and the Date/Timestamp/Decimal and compound kinds are outside the generated grammar and the model',
+        'window features (RowNumber over a partition, in every clause) are generated and judged by the oracle only - they are outside the Coq grammar; the Date/Timestamp/Decimal and compound kinds are outside the generated grammar and the model',
     ]
 
     def _source(self, rng):
@@ -328,6 +360,43 @@ class C07(core.Prop):
         for kind in ('union', 'intersection', 'difference'):
             out.append({'statement': ['set', kind, one, two], 'mutant': True})
             out.append({'statement': ['set', kind, two, one], 'mutant': True})
+        out += self._windowed(None)
+        return out
+
+    @staticmethod
+    def _windowed(rng):
+        """Statements with a window feature (RowNumber over a partition) in every clause: cross-row features are excluded
+        from where / grouping / join conditions, windows from having, and in a grouped query a window does not make a
+        selected feature outside the grouping legitimate (only an aggregate does). Oracle only: no model counterpart."""
+        ident, x, y = ['col', 'A', 'id'], ['col', 'A', 'x'], ['col', 'A', 'y']
+        pick = (lambda l: l[0]) if rng is None else rng.choice
+        parts = [[x], [x, y], []] if rng is None else [rng.sample([ident, x, y], rng.randint(0, 2))]
+        q = lambda src, **kw: ['query', src, {'sel': [], 'pre': None, 'grp': [], 'post': None, 'ord': [], 'rows': None, **kw}]
+        out = []
+        for part in parts:
+            w = ['win', 'rownumber', part]
+            wraps = [w, ['alias', w, 'rn'], ['bin', '+', w, ['lit', 1]], ['alias', ['bin', '*', ['lit', 2], w], 'rn2'],
+                     ['bin', pick(['>', '==', '<=']), w, ['lit', 1]], ['bin', '-', w, y]]
+            if rng is not None:
+                wraps = rng.sample(wraps, 3)
+            count = ['alias', ['agg', 'count', y], 'n']
+            for f in wraps:
+                out.append({'statement': q(A, sel=[ident, f]), 'mutant': False})                         # plain projection: fine
+                out.append({'statement': q(A, sel=[x, f], grp=[x]), 'mutant': True})                     # outside the grouping, no aggregate
+                out.append({'statement': q(A, sel=[x, count, f], grp=[x]), 'mutant': True})              # ... even beside a real aggregate
+                out.append({'statement': q(A, sel=[f, x], grp=[x, y]), 'mutant': True})
+            mixed = ['bin', '+', w, ['agg', pick(['count', 'sum', 'max']), y]]
+            out.append({'statement': q(A, sel=[x, mixed], grp=[x]), 'mutant': False})                     # carries an aggregate: fine
+            out.append({'statement': q(A, sel=[x, ['alias', mixed, 'm']], grp=[x]), 'mutant': False})
+            cond = ['bin', pick(['>', '<', '==']), w, ['lit', 1]]
+            out.append({'statement': q(A, sel=[ident], pre=cond), 'mutant': True})                        # where
+            out.append({'statement': q(A, sel=[ident], pre=['bin', 'and', ['bin', '>', x, ['lit', 0]], cond]), 'mutant': True})
+            out.append({'statement': q(A, sel=[count], grp=[w]), 'mutant': True})                         # grouping
+            out.append({'statement': q(A, sel=[x, count], grp=[x, ['bin', '+', w, ['lit', 1]]]), 'mutant': True})
+            out.append({'statement': q(A, sel=[x, count], grp=[x], post=cond), 'mutant': True})           # having
+            out.append({'statement': q(A, sel=[x, count], grp=[x], post=['bin', '>', ['agg', 'count', y], ['lit', 1]]), 'mutant': False})
+            out.append({'statement': q(A, sel=[ident], ord=[[w, pick(['ascending', 'descending'])]]), 'mutant': False})   # ordering: fine
+            out.append({'statement': q(['join', 'inner', A, B, ['bin', '==', w, ['col', 'B', 'id']]], sel=[ident]), 'mutant': True})
         return out
 
     def cases(self, rng, tier):
@@ -348,6 +417,8 @@ class C07(core.Prop):
                 out.append({'statement': stmt, 'mutant': True})
             else:
                 out.append({'statement': stmt, 'mutant': False})
+        for _ in range(2 if tier == 'quick' else 20):
+            out += self._windowed(rng)
         return out
 
     def run_impl(self, cases):
@@ -356,6 +427,8 @@ class C07(core.Prop):
         return [impl.observe(c) for c in cases]
 
     def coq_case(self, case, obs):
+        if has_window(case['statement']):
+            return None     # window features are outside the Coq grammar: judged by the oracle only
         if 'error' in obs or 'schema_error' in obs:
             return '(C07.CStatement (STable 0 nil) false nil)'
         schema = []
